@@ -65,6 +65,8 @@ type Contract struct {
 	Assumed    bool
 	Inline     bool
 	Decreases  *Clause
+	MaxAlloc   *Clause
+	Allocates  *Clause
 	PanicsOK   bool
 	Params     []string // optional explicit parameter names for assumed contracts on functions without source names
 	File       string
@@ -138,7 +140,8 @@ var labelRe = regexp.MustCompile(`^\[([A-Za-z0-9_.:\-]+)\]\s*`)
 
 var clauseKW = map[string]bool{"props": true, "requires": true, "ensures": true, "assigns": true, "canary": true,
 	"loop": true, "decreases": true, "nooverflow": true, "assumed": true, "inline": true, "let": true, "panics_ok": true,
-	"params": true, "ghost": true, "terminates": true, "bytes": true, "split": true, "uses": true, "after": true, "calls": true}
+	"params": true, "ghost": true, "terminates": true, "bytes": true, "split": true, "uses": true, "after": true, "calls": true,
+	"maxalloc": true, "allocates": true}
 
 func fullName(pkgPath, key string) string {
 	if strings.Contains(key, "/") || pkgPath == "" {
@@ -465,6 +468,21 @@ func (c *Contract) addClause(kw, text string, line int) error {
 			return err
 		}
 		c.Decreases = &cl
+	case "maxalloc":
+		// maxalloc [label] <e>: no single allocation request made by this function (make, or a callee
+		// that `allocates`) asks for more than e elements; e is evaluated in the entry state
+		cl, err := c.mkClause(text, line)
+		if err != nil {
+			return err
+		}
+		c.MaxAlloc = &cl
+	case "allocates":
+		// allocates <e>: (assumed contracts) the call requests e elements of memory
+		cl, err := c.mkClause(text, line)
+		if err != nil {
+			return err
+		}
+		c.Allocates = &cl
 	case "loop":
 		// loop <n> invariant <e> | loop <n> decreases <e>
 		fs := strings.Fields(text)
